@@ -89,6 +89,8 @@ def cases(tier, seed):
     for m in rt.collision_models():
         if in_fragment(m):
             yield ('D', m)
+    for t in families.long_chains():
+        yield ('K', cm.on_carrier([t]))
     for t in families.deep_trees():
         if 'XOR' not in sh.tree_ops(t):
             yield ('K', cm.on_carrier([t]))
